@@ -219,6 +219,13 @@ mut("gendag_u_before_method_dropped", "pymtl3/passes/sim/GenDAGPass.py",
     "                    top._dag.all_constraints.add( (v, blk) )", "                    pass", ["C02", "C17", "C18"])
 
 
+mut("openloop_rollover_ge", "pymtl3/passes/autotick/OpenLoopCLPass.py",
+    "        if j > my_idx_orig:", "        if j > my_idx_orig + 1:", ["C17"])
+mut("openloop_skip_blocks_before_method", "pymtl3/passes/autotick/OpenLoopCLPass.py",
+    "        while i < my_idx_new:\n          schedule_no_method[i]()\n          i += 1\n        j = my_idx_orig + 1",
+    "        while i < my_idx_new - 1:\n          schedule_no_method[i]()\n          i += 1\n        i = my_idx_new\n        j = my_idx_orig + 1", ["C17"])
+
+
 def load_extra():
   p = os.path.join(VERIF, "tools", "mutants_extra.json")
   if os.path.exists(p):
